@@ -138,8 +138,7 @@ def same_up_to_phase(a, b, tol=1e-9):
     return abs(abs(ph) - 1) < 1e-6 and np.allclose(a * ph, b, atol=tol)
 
 
-def published_matrices(V, tmp) -> int:
-    """every instruction class of both flavours: to_matrix() vs the numeric value of Gates!Denote"""
+def _matrix_instances():
     samples = []
     insts = {}
     def add(obj, g):
@@ -156,7 +155,7 @@ def published_matrices(V, tmp) -> int:
             if issubclass(cls, core.SingleQubitInstruction):
                 add(cls(reg=r0), {"mn": mn, "qs": [1], "imm": []})
             elif issubclass(cls, core.RotationInstruction):
-                for n, d in ((1, 1), (3, 2), (5, 3), (1, 0), (7, 4), (31, 4), (255, 8), (77, 16), (255, 20),
+                for n, d in ((1, 1), (3, 2), (5, 3), (1, 0), (7, 4), (24, 4), (31, 4), (255, 8), (77, 16), (255, 20),
                              (1, 21), (255, 31), (3, 32), (255, 40), (129, 63), (1, 64), (255, 65), (7, 100), (255, 255)):
                     add(cls(reg=r0, imm0=Immediate(n), imm1=Immediate(d)), {"mn": mn, "qs": [1], "imm": [n, d]})
             elif issubclass(cls, core.ControlledRotationInstruction):
@@ -164,10 +163,33 @@ def published_matrices(V, tmp) -> int:
                     add(cls(reg0=r0, reg1=r1, imm0=Immediate(n), imm1=Immediate(d)), {"mn": mn, "qs": [1, 2], "imm": [n, d]})
             elif issubclass(cls, core.TwoQubitInstruction) and mn != "mov":
                 add(cls(reg0=r0, reg1=r1), {"mn": mn, "qs": [1, 2], "imm": []})
+    return samples, insts
+
+
+def _eval_in_order(args):
+    """(fresh process) request the published matrices in the given order; ids whose matrix is not the denotation"""
+    order, Us = args
+    _, insts = _matrix_instances()
+    bad = []
+    for i in order:
+        try:
+            M = np.array(insts[i].to_matrix(), dtype=complex)
+        except Exception as ex:
+            bad.append((i, f"raises {type(ex).__name__}: {ex}"))
+            continue
+        if M.shape != Us[i].shape or not same_up_to_phase(Us[i], M):
+            bad.append((i, f"{insts[i]}: to_matrix() is not the operator the mnemonic denotes\nspec:\n{np.round(Us[i], 3)}\nrepo:\n{np.round(M, 3)}"))
+    return bad
+
+
+def published_matrices(V, tmp, tier="quick") -> int:
+    """every instruction class of both flavours: to_matrix() vs the numeric value of Gates!Denote"""
+    samples, insts = _matrix_instances()
     sp, op = f"{tmp}/samples.ndjson", f"{tmp}/denote.ndjson"
     C.write_ndjson(sp, samples)
     C.run_tlc("GatesExport", env={"VERIF_TRACES": sp, "VERIF_OUT": op}, workers=1)
     den = {r["id"]: r["rots"] for r in C.read_ndjson(op)}
+    Us = {}
     for i, obj in insts.items():
         nq = len(samples[i - 1]["g"]["qs"])
         U = np.eye(2**nq, dtype=complex)
@@ -179,6 +201,7 @@ def published_matrices(V, tmp) -> int:
                 # n pi / 2^d is evaluated by the rig in floating point
                 th = imm[0] * 2.0 ** (20 - imm[1])
             U = rot_matrix(r["x"][:nq], r["z"][:nq], r["ph"], th) @ U
+        Us[i] = U
         try:
             M = np.array(obj.to_matrix(), dtype=complex)
         except Exception as ex:
@@ -195,6 +218,28 @@ def published_matrices(V, tmp) -> int:
             T = rot_matrix(ax[0], ax[1], ax[2], th)
             if not same_up_to_phase(T, np.array(obj.to_matrix_target_only(), dtype=complex)):
                 V.add("published-matrix-differs-from-denotation", {"class": f"nv.{type(obj).__name__}.target_only"}, f"{obj}")
+    # the matrix of an instruction is a function of the instruction alone: the same comparison with the matrices
+    # requested in other orders, each order in a process of its own (nothing computed earlier is around)
+    import multiprocessing as mp
+    ids = sorted(insts)
+    one = [i for i in ids if len(samples[i - 1]["g"]["qs"]) == 1]
+    two = [i for i in ids if len(samples[i - 1]["g"]["qs"]) == 2]
+    orders = [list(reversed(ids)), one + two, two + one, list(reversed(one)) + two]
+    rng = random.Random(C.seed() * 31 + 7)
+    for _ in range(4 if tier == "quick" else 28):
+        o = list(ids)
+        rng.shuffle(o)
+        orders.append(o)
+    with mp.get_context("spawn").Pool(min(len(orders), C.ncpu())) as pool:
+        results = pool.map(_eval_in_order, [(o, Us) for o in orders])
+    for o, bad in zip(orders, results):
+        for i, detail in bad:
+            obj = insts[i]
+            V.add("published-matrix-depends-on-evaluation-order",
+                  {"class": f"{type(obj).__module__.split('.')[-1]}.{type(obj).__name__}"},
+                  f"with the matrices requested in the order {[str(insts[j]) for j in o[:o.index(i) + 1]][-6:]} (last six): {detail}",
+                  {"order": o, "instruction": str(obj)})
+    published_matrices.orders = len(orders)
     return len(insts)
 
 
@@ -229,7 +274,7 @@ def run(prop: str, tier: str) -> int:
             raise C.MachineryError(f"NvEquiv gave no result for {len(missing)} artefacts")
         if inconclusive:
             raise C.MachineryError(f"{inconclusive} artefacts could not be decided by the normal form (non-commuting residual rotations)")
-        nmat = published_matrices(V, tmp)
+        nmat = published_matrices(V, tmp, tier)
         # binding self-test: a mutated decomposition must be rejected
         probe = json.loads(json.dumps(next(r for r in good if r["gate"] == "cnot" and r["ids"] == [1, 2])))
         probe["id"] = 1
@@ -246,7 +291,7 @@ def run(prop: str, tier: str) -> int:
             "evaluations": len(rows), "distinct_nontrivial": len({json.dumps([r["gate"], r["ids"], r["src"][0]["imm"], r["hw"]]) for r in good}),
             "rule": "artefact = (vanilla gate, placement over electron/carbons, (n,d), hardware flag) with the REAL transpiler's expansion; every artefact is non-trivial (a gate to preserve); distinct by value",
             "samples": [{k: rows[i][k] for k in ("gate", "ids", "src", "tgt", "hw")} for i in (0, 25, len(rows) - 1)],
-            "published_matrices_compared": nmat,
+            "published_matrices_compared": nmat, "matrix_evaluation_orders": 1 + published_matrices.orders,
             "selftest": "carbon-carbon CNOT expansion with one rot_z numerator changed was rejected",
             "exhaustive": False, "checker_cmd": res.cmd,
         }
